@@ -27,7 +27,7 @@ def main():
     mods = {p: importlib.import_module("rules_" + p) for p in props}
     table = {}
     for sd in seeds:
-        name = sd.rstrip("/").replace("/tmp/seed/", "").replace("/out/", "-")
+        name = os.path.basename(sd.rstrip("/")) if "/seeded/" in os.path.abspath(sd) or "/selftest/" in os.path.abspath(sd) else sd.rstrip("/").replace("/tmp/seed/", "").replace("/out/", "-")
         patch = os.path.join(sd, "patch.diff")
         subprocess.run(["git", "-C", wt, "checkout", "--", "."], check=True)
         r = subprocess.run(["git", "-C", wt, "apply", patch], capture_output=True, text=True)
@@ -66,12 +66,12 @@ def main():
                     print("    %s %s %s :: %s" % (p, v[0], v[1][:110], v[2][:160]))
                 else:
                     print("    %s %s" % (p, v))
-        table[name] = sorted(caught)
+        table[name] = {p: sorted({v[0] if isinstance(v, tuple) else "CRASH" for v in vs}) for p, vs in sorted(caught.items())}
         subprocess.run(["git", "-C", wt, "checkout", "--", "."], check=True)
     print("\nSUMMARY")
     for k, v in table.items():
         print("%-10s %s" % (k, "n/a (patch does not apply)" if v is None else (",".join(v) or "MISSED")))
-    json.dump(table, open("/tmp/seedmatrix.json", "w"), indent=1)
+    json.dump(table, open(os.environ.get("SEEDMATRIX_OUT", "/tmp/seedmatrix.json"), "w"), indent=1)
 
 
 if __name__ == "__main__":
